@@ -59,11 +59,19 @@ func c18params(r *sim.Rand, kind string) (f []float64, nilConf bool) {
 		if kind == "uniform" && r.Bool(0.25) {
 			return nil, true
 		}
+		if r.Bool(0.3) {
+			sp := [][]float64{{0, 1}, {-1, 0}, {0, 0.05}, {-0.05, 0}, {-1, 1}, {0, 1e-3}, {1, 2}}
+			return cpF(sp[r.Intn(len(sp))]), false
+		}
 		lo := r.Uniform(-3, 3)
 		return []float64{lo, lo + r.LogUniform(1e-3, 10)}, false
 	case "normal", "randn":
 		if kind == "normal" && r.Bool(0.25) {
 			return nil, true
+		}
+		if r.Bool(0.3) {
+			sp := [][]float64{{0, 1}, {0, 0.05}, {1, 1}, {-2, 0.5}, {0, 1e-3}, {3, 0.1}, {0.05, 0.05}}
+			return cpF(sp[r.Intn(len(sp))]), false
 		}
 		return []float64{r.Uniform(-5, 5), r.LogUniform(1e-3, 10)}, false
 	case "heuniform", "henormal":
@@ -167,11 +175,11 @@ type pool18 struct {
 	unif   bool
 	z      []float64 // standardised samples in draw order
 	// consecutive-call correlation
-	prev        []float64
-	cc          float64
-	ccn         int
-	r1          float64 // within-tensor lag-1 products
-	r1n         int
+	prev []float64
+	cc   float64
+	ccn  int
+	r1   float64 // within-tensor lag-1 products
+	r1n  int
 }
 
 func c18draw(st sim.Step) (t tensor.Tensor, err error, p pool18, random bool) {
